@@ -377,6 +377,14 @@ def ansHistBoth (a : List String) : String :=
 
 def flagOf (s : String) : Bool := s == "1"
 
+/-- `LanguageIdentifier::maximize/minimize` as the statement describes them: the look-up result replaces the three
+    fields and the call reports `true`; no result leaves the value alone and reports `false` -/
+def specApply (f : Language → Option Bytes → Option Bytes → Option (Language × Option Bytes × Option Bytes)) (x : LangId) :
+    LangId × Bool :=
+  match f x.language x.script x.region with
+  | some (l, s, r) => ({ x with language := l, script := s, region := r }, true)
+  | none => (x, false)
+
 def cldrDerivedLayout : Layout := Spec.derivedLayout Gen.cldrLayout
 
 def dirClause (x : LangId) : String :=
@@ -455,10 +463,15 @@ def answer (line : String) : String :=
         match LangId.fromBytes v with
         | .ok x =>
           let f (y : LangId) := if op == "limax" then y.maximize Gen.tables else y.minimize Gen.tables
+          -- reference: the dictionary formulation over the CLDR data, applied to the three fields
+          let g (y : LangId) := specApply (if op == "limax" then Spec.maximize cldrFind else Spec.minimize cldrFind) y
+          let (sy, sb1) := g x
+          let (sz, sb2) := g sy
+          let sp := s!"ok {renderLi x} | {b01 sb1} {renderLi sy} | {b01 sb2} {renderLi sz}"
           match f x with
           | .ok (y, b1) =>
             match f y with
-            | .ok (z, b2) => s!"ok {renderLi x} | {b01 b1} {renderLi y} | {b01 b2} {renderLi z}"
+            | .ok (z, b2) => withSpec s!"ok {renderLi x} | {b01 b1} {renderLi y} | {b01 b2} {renderLi z}" sp
             | .err _ => "err"
             | .panic => "panic"
           | .err _ => "err"
@@ -499,8 +512,9 @@ def answer (line : String) : String :=
       | some v =>
         match Locale.fromBytes v with
         | .ok x =>
+          let (sy, sb) := specApply (if op == "locmax" then Spec.maximize cldrFind else Spec.minimize cldrFind) x.id
           match (if op == "locmax" then x.id.maximize Gen.tables else x.id.minimize Gen.tables) with
-          | .ok (y, b) => s!"ok {b01 b} {renderLoc { x with id := y }}"
+          | .ok (y, b) => withSpec s!"ok {b01 b} {renderLoc { x with id := y }}" s!"ok {b01 sb} {renderLoc { x with id := sy }}"
           | .err _ => "err"
           | .panic => "panic"
         | .err e => errCode e
